@@ -56,6 +56,16 @@ func Run(c *common.Ctx) error {
 			{Op: "wtx", Frames: [][2]uint64{{6, 36}, {7, 37}, {8, 38}}, NewSize: 8},
 			{Op: "appckpt", CkptMode: 2},
 			{Op: "wtx", Frames: [][2]uint64{{2, 42}}, NewSize: 8}},
+		// leaving WAL mode the way SQLite does it: the log is closed (checkpointed, deleted), then page 1 is rewritten with
+		// version 1 under a rollback journal while the header on disk - and LiteFS - still say WAL
+		{{Op: "rtx", Writes: map[uint32]uint64{1: 1, 2: 2, 3: 3}, NewSize: 3, ToWAL: true},
+			{Op: "wtx", Frames: [][2]uint64{{2, 12}, {4, 14}}, NewSize: 4},
+			{Op: "torollbackj"},
+			{Op: "rtx", Writes: map[uint32]uint64{2: 22}, NewSize: 4},
+			{Op: "rtx", Writes: map[uint32]uint64{1: 31, 3: 33}, NewSize: 4, ToWAL: true},
+			{Op: "wtx", Frames: [][2]uint64{{1, 41}}, NewSize: 4},
+			{Op: "torollbackj", JMode: 1},
+			{Op: "rtx", Writes: map[uint32]uint64{4: 54}, NewSize: 4}},
 	}
 	for si, script := range scripts {
 		for _, be := range []bool{false, true} {
@@ -71,7 +81,7 @@ func Run(c *common.Ctx) error {
 				h.Exec(st)
 			}
 			h.CheckCrash(c, "C03")
-			h.CheckCapture(c, "C03", map[string]bool{"wtx": true, "lockonly": true, "appckpt": true, "lfsckpt": true, "torollback": true, "rtx": true, "wabort": true})
+			h.CheckCapture(c, "C03", map[string]bool{"wtx": true, "lockonly": true, "appckpt": true, "lfsckpt": true, "torollback": true, "torollbackj": true, "rtx": true, "wabort": true})
 			cf.Add(h.CoqCase(), map[string]any{"kind": "history", "page_size": 512, "script": si, "big_endian_wal": be, "steps": h.Steps})
 			h.Close()
 		}
@@ -93,7 +103,7 @@ func Run(c *common.Ctx) error {
 		}
 		h.Run(c.Pick(25, 60))
 		h.CheckCrash(c, "C03")
-		h.CheckCapture(c, "C03", map[string]bool{"wtx": true, "lockonly": true, "appckpt": true, "lfsckpt": true, "torollback": true, "rtx": true, "wabort": true})
+		h.CheckCapture(c, "C03", map[string]bool{"wtx": true, "lockonly": true, "appckpt": true, "lfsckpt": true, "torollback": true, "torollbackj": true, "rtx": true, "wabort": true})
 		cf.Add(h.CoqCase(), map[string]any{"kind": "history", "page_size": cfg.PageSize, "regime": cfg.Regime, "big_endian_wal": cfg.BigEndian, "steps": h.Steps})
 		for _, ob := range h.Obs {
 			c.Count("op_"+ob.Op, 1)
